@@ -4,6 +4,8 @@ package persistence
 // before an arbitrary command, fresh store objects over what survived.
 
 import (
+	"time"
+
 	gmqtt "github.com/DrmagicE/gmqtt"
 	"github.com/DrmagicE/gmqtt/persistence/queue"
 	"github.com/DrmagicE/gmqtt/persistence/subscription"
@@ -282,3 +284,50 @@ func ZZ_C09_Unack() {
 }
 
 var _ = queue.ErrClosed
+
+// ZZ_C09_MsgCodec: what the redis stores write for a message (queue elements, the will
+// of a session) reads back as the same message, for every field value; and a queue
+// element keeps its entry / expiry instants (whole seconds) and its kind.
+func ZZ_C09_MsgCodec() {
+	// one length for all byte / string fields (0..N): the codec treats them alike
+	l := zzrt.Choice(zzrt.Param("N") + 1)
+	m := &gmqtt.Message{Dup: zzrt.Bool(), QoS: zzrt.Byte(), Retained: zzrt.Bool(), Topic: zzrt.String(l), Payload: zzrt.Bytes(l),
+		PacketID: zzrt.Uint16(), ContentType: zzrt.String(l), CorrelationData: zzrt.Bytes(l), MessageExpiry: zzrt.Uint32(),
+		PayloadFormat: zzrt.Byte(), ResponseTopic: zzrt.String(l)}
+	if zzrt.Choice(2) == 1 {
+		id := zzrt.Uint32()
+		zzrt.Assume(id >= 1 && id <= 268435455)
+		m.SubscriptionIdentifier = []uint32{id, 7}
+		m.UserProperties = []packets.UserProperty{{K: zzrt.Bytes(l), V: zzrt.Bytes(l)}}
+	}
+	at, exp := int64(zzrt.Uint32()), int64(zzrt.Uint32())
+	e := &queue.Elem{At: time.Unix(at, 0), MessageWithID: &queue.Publish{Message: m}}
+	if zzrt.ConcreteBool(exp != 0) {
+		e.Expiry = time.Unix(exp, 0)
+	}
+	g := &queue.Elem{}
+	zzrt.Assert(g.Decode(e.Encode()) == nil, "stored-element-decodes")
+	gp, ok := g.MessageWithID.(*queue.Publish)
+	zzrt.Assert(ok && gp.Message != nil, "stored-publish-decodes-as-publish")
+	zzrt.Assert(g.At.Unix() == at, "entry-time-round-trips")
+	zzrt.Assert(g.Expiry.IsZero() == e.Expiry.IsZero() && (e.Expiry.IsZero() || g.Expiry.Unix() == exp), "expiry-time-round-trips")
+	a, b := zzrt.Flatten(*m), zzrt.Flatten(*gp.Message)
+	zzrt.Assert(len(a) == len(b), "message-codec-round-trips-every-field")
+	same := true
+	for i := range a {
+		if i < len(b) {
+			same = zzrt.And(same, a[i] == b[i])
+		}
+	}
+	zzrt.Assert(same, "message-codec-round-trips-every-field")
+	zzrt.Observe("qos", gp.Message.QoS)
+	zzrt.Observe("pid", gp.Message.PacketID)
+	// a PUBREL element
+	id := zzrt.Uint16()
+	r := &queue.Elem{At: time.Unix(at, 0), MessageWithID: &queue.Pubrel{PacketID: id}}
+	g2 := &queue.Elem{}
+	zzrt.Assert(g2.Decode(r.Encode()) == nil, "stored-pubrel-decodes")
+	rel, isRel := g2.MessageWithID.(*queue.Pubrel)
+	zzrt.Assert(isRel && rel.PacketID == id, "pubrel-round-trips")
+	zzrt.Cover("codec")
+}
